@@ -16,7 +16,7 @@ NOTE_M = ('Trusted: Lean kernel (axioms propext, Classical.choice, Quot.sound on
 
 CLAIMS = {
  'C01': (M, 'proof',
-  'Theorems: Reed-Solomon decoding from any k distinct symbols returns exactly the encoded source symbols (both fields, all 1<=k<=n<=2^m-1). LDPC-Staircase / 2D, value level, whole sessions: the invariant "every stored symbol value is the transmitted one, and the partial sum of every equation is the sum of the transmitted values of its remaining entries" holds after configuration (C01_ldpc_configured, including the even-N1 decoder that pretends to have received the zero last repair symbol), is preserved by every submission through the recursive iterative decoder (C01_it_sound), by the simplification of the linear system (C01_simplify_sound), the Gaussian elimination (C01_ml_sound) and the write-back, for any sequence of submissions (any order, duplicates, either API) and of_finish_decoding calls, before and after the matrix has been consumed by an elimination (C01_ldpc_session_sound). Hypotheses: symbol addition is XOR-like and the transmitted block satisfies the parity-check equations. The models are run against the real library on every receive set for small n, both APIs, with callbacks, sampled large blocks, and histories that continue after of_finish_decoding; the direct oracle compares every non-NULL entry of of_get_source_symbols_tab with the encoded symbol byte for byte.',
+  'Theorems: Reed-Solomon decoding from any k distinct symbols returns exactly the encoded source symbols (both fields, all 1<=k<=n<=2^m-1). LDPC-Staircase / 2D, value level, whole sessions: the invariant "every stored symbol value is the transmitted one, and the partial sum of every equation is the sum of the transmitted values of its remaining entries" holds after configuration (C01_ldpc_configured, including the even-N1 decoder that pretends to have received the zero last repair symbol), is preserved by every submission through the recursive iterative decoder (C01_it_sound), by the simplification of the linear system (C01_simplify_sound), the Gaussian elimination (C01_ml_sound) and the write-back, for any sequence of submissions (any order, duplicates, either API) and of_finish_decoding calls, before and after the matrix has been consumed by an elimination (C01_ldpc_session_sound); with the encoder model: C01_ldpc_roundtrip (whatever is submitted, every source symbol the session holds is the one that was encoded). Hypotheses: symbol addition is XOR-like and the transmitted block satisfies the parity-check equations. The models are run against the real library on every receive set for small n, both APIs, with callbacks, sampled large blocks, and histories that continue after of_finish_decoding; the direct oracle compares every non-NULL entry of of_get_source_symbols_tab with the encoded symbol byte for byte.',
   'Lean 4 invariant proof over hand model (IT + ML, whole sessions) + differential correspondence + byte-exact oracle', 'DESIGN.md section 0.2 and section 4, C01'),
  'C02': (M, 'proof',
   'Theorems (Mathlib Lagrange interpolation over Field instances built from the bit-level multiplication): the model generator is the '
@@ -34,8 +34,8 @@ CLAIMS = {
   'Lean 4 invariant proof (peeling closure) + per-call correspondence', 'DESIGN.md section 4, C04 and appendix C.5'),
  'C05': (M, 'proof',
   'Theorems over the RFC 5170 transcription using the translated PRNG: the matrix is independent of the previous global PRNG state for '
-  'valid seeds, an invalid seed keeps the state (why it must be rejected), staircase structure, N1>r rejected. Tie: the parity-check '
-  'matrix of real encoder and decoder sessions is dumped after arbitrary other sessions and compared row by row with the model.',
+  'valid seeds, an invalid seed keeps the state (why it must be rejected), N1>r rejected; C05_matrix_wf: EVERY matrix the construction returns, for every (k, n-k, N1, seed) and every rounding operator of the binary64 standard model, has n-k equations, no repeated entry, entries below n, no single-entry equation and the staircase shape (the hypotheses of the decoder theorems C01/C03/C04, which therefore hold for every accepted configuration: C05_configured_session). Termination of the rejection loops for every seed is not proved (fuel 2^31). Tie: the parity-check '
+  'matrix of real encoder and decoder sessions is dumped after arbitrary other sessions (including near twins that differ in one of N1, seed, k, r) and compared row by row with the model and with an independent Python transcription.',
   'Lean 4 theorems over RFC 5170 model + matrix dump correspondence', 'DESIGN.md section 4, C05'),
  'C06': (M, 'proof',
   'Theorems: RS repair symbols are rows of the systematic Lagrange generator (both fields), codec 1 and codec 2/m=8 use the same field and '
@@ -55,7 +55,7 @@ CLAIMS = {
   'sets for small n, both APIs, callbacks, finish after completion and with fewer than k symbols, histories that continue after of_finish_decoding (second finish, late symbols); direct oracle on statuses.',
   'Lean 4 theorems over session state machine + traced correspondence', 'DESIGN.md section 4, C10'),
  'C11': (M, 'proof',
-  'Theorems: callback events are exactly the missing source ESIs, each once, never a received one (Reed-Solomon; Gaussian-elimination stage of LDPC-Staircase/2D: C11_ldpc_finish_events), value stored where the policy says, NULL falls '
+  'Theorems: callback events are exactly the missing source ESIs, each once, never a received one (Reed-Solomon; iterative-decoding stage of LDPC-Staircase/2D per call: C11_ldpc_recv_events, by an invariant on the list of rebuilt symbols of the decoder with a fuel-sufficiency argument; Gaussian-elimination stage: C11_ldpc_finish_events), value stored where the policy says, NULL falls '
   'back to a library buffer. Tie: sorted event multisets, buffer identity and contents on loss patterns per decoding stage (IT, ML).',
   'Lean 4 theorems over callback model + event-multiset correspondence', 'DESIGN.md section 4, C11'),
  'C13': (M, 'proof',
@@ -67,7 +67,7 @@ CLAIMS = {
   'Every table entry of the current tree (13 tables, 3 sets) is proved equal to bit-level arithmetic in GF(2)[x]/(p) by kernel evaluation '
   'over the whole index range; the tables are regenerated from the sources (header initialisers; run-time tables dumped from the '
   'unmodified translation unit) on every run, so a changed entry breaks a proof, and the failing entry is then located and re-read from '
-  'the C object.',
+  'the C object. The run-time tables of the GF(2^8) codec are also generated a second time (of_rs_init is exported) and must come out identical (C14_regeneration_idempotent).',
   'Lean 4 kernel evaluation (decide +kernel) over tables regenerated from source', 'DESIGN.md section 4, C14'),
  'C15': (M, 'proof',
   'Theorem C15_truthful: when the flag condition holds (no extra entries, N1 even) every column but the last has even weight, so the sum '
